@@ -282,8 +282,25 @@ def run_oracle(res, props, tier, seed, only=None):
     return out["bad"], None
 
 
-def run(res, tier, seed, broken, props, with_bcast):
+def container_oracle(res, seed, prop):
+    """the container programs of C12's harness (structure and values of gradients and tangents of nested containers): run for
+    the rule properties that speak about containers too (C05: structure; C02: forward mode)"""
+    out, err = C.run_impl("impl_c12.py", {"seed": seed + 3, "n": 60, "n_oracle": 25})
+    if out is None:
+        return [], err
+    res.add_cases(out["oracle_n"], out["oracle_keys"], [])
+    res.count("container-oracle-cases", out["oracle_n"])
+    return [dict(b, property=prop, primitive="container:" + str(b.get("oracle")), configuration=str(b.get("x"))[:80],
+                 what="container program: gradient / tangent with the wrong structure or values") for b in out["oracle_bad"]], None
+
+
+def run(res, tier, seed, broken, props, with_bcast, containers=False):
     bad, tie = [], []
+    if containers:
+        cb, cerr = container_oracle(res, seed, props[0])
+        bad = bad + cb
+        if cerr:
+            broken = broken + [{"obligation": "container oracle failed to run", "log": cerr[-3000:]}]
     if with_bcast:
         b, t, err = run_bcast(res, "bc_" + props[0].lower(), seed, 170 if tier == "thorough" else 51)
         bad, tie = bad + b, tie + t
